@@ -104,6 +104,14 @@ CHECKS = {
          "the per-experiment columns. The state of the search is the history of experiments already processed by the process.",
          "Trusted: tree comparison in vlib/run.py; stand-alone runs use --prefix <experiment>.",
          "DESIGN.md §3 C10"),
+ "C12": ("exploration",
+         "bounded-exhaustive enumeration of annotation representations x cache states and of all assignments of read classes to <=2/3 BAM files x file orders; each case is a complete pipeline run compared with the single-GTF single-BAM run",
+         "Annotation given as .gtf, .gtf.gz or prebuilt .db, with and without --complete_genedb, on a fresh HOME, with the conversion already cached, "
+         "and with a cache entry made stale by mtime: all outputs must be byte-identical to the reference run. Reads are grouped in 4 locus classes "
+         "(so that a file can lack a whole locus another file covers); every map of classes to <=2 (quick) / <=3 (thorough) files in every file "
+         "order is run; read assignments, corrected BED and ungrouped gene/transcript count and TPM tables must be equal as multisets of lines.",
+         "Trusted: tree comparison; the BAM writer (pysam).",
+         "DESIGN.md §3 C12"),
 }
 
 NOT_YET = {}
